@@ -58,7 +58,7 @@ class AllocFault(Exception):
 # instructions that may run under a node limit: one dd call, nothing held
 # across it, no level swaps inside (a swap that runs out of nodes half-way
 # cannot be atomic, and nothing claims it is)
-ALLOC_OPS = {'apply', 'ite', 'fop', 'quant', 'let', 'cube', 'find_or_add', 'add_expr', 'var'}
+ALLOC_OPS = {'apply', 'ite', 'fop', 'quant', 'let', 'cube', 'find_or_add', 'add_expr', 'var', 'copy', 'image'}
 
 
 def call(w, fn, *a, **kw):
@@ -404,6 +404,98 @@ def op_eqcheck(w, ins):
         good = ok and f'var levels: {g.raw.vars}' in v
     if not good:
         w.fail('wrong_result', f'str(bdd) is {v!r} for {len(g.api.vars)} variables and {len(g.api)} nodes', owner_tags(w, 'C18'))
+
+
+def op_nest(w, ins):
+    """A nested expression, as users of `dd.autoref` write them: the inner
+    result is a temporary that only the outer call holds (no variable of the
+    caller refers to it).  The outer call is one of the entry points; dynamic
+    reordering may fire inside either call (C09), the temporary is finalized
+    when the outer call lets go of it (C08)."""
+    m = ins.get('m', 0)
+    g = w.mgrs[m]
+    if g.flavor != 'autoref':
+        return 'skip'
+    a = w.pick(ins['a'], m)
+    if a is None:
+        return 'skip'
+    b = w.pick(ins['b'], m)
+    c = w.pick(ins['c'], m)
+    T = w.tt
+    api = g.api
+    s1 = ins['sym1'] if ins['sym1'] in SYM2CONN else 'and'
+    s2 = ins['sym2'] if ins['sym2'] in SYM2CONN else 'or'
+    tmp = conn(T, SYM2CONN[s1], a.tt, b.tt)
+    dec = declared(w, m)
+    kind = ins['kind']
+    owner = 'C01'
+    if kind == 'apply':
+        want = conn(T, SYM2CONN[s2], tmp, c.tt)
+        fn = lambda x, y, z: api.apply(s2, api.apply(s1, x, y), z)
+    elif kind == 'apply_r':
+        want = conn(T, SYM2CONN[s2], c.tt, tmp)
+        fn = lambda x, y, z: api.apply(s2, z, api.apply(s1, x, y))
+    elif kind == 'apply_both':
+        want = conn(T, SYM2CONN[s2], tmp, T.neg(tmp) if ins.get('neg') else tmp)
+        if ins.get('neg'):
+            fn = lambda x, y, z: api.apply(s2, api.apply(s1, x, y), ~api.apply(s1, x, y))
+        else:
+            fn = lambda x, y, z: api.apply(s2, api.apply(s1, x, y), api.apply(s1, x, y))
+    elif kind == 'not':
+        want = T.neg(tmp)
+        fn = lambda x, y, z: api.apply('not', api.apply(s1, x, y))
+    elif kind == 'ite':
+        want = T.ite(tmp, c.tt, a.tt)
+        fn = lambda x, y, z: api.ite(api.apply(s1, x, y), z, x)
+    elif kind == 'ite_else':
+        want = T.ite(c.tt, a.tt, tmp)
+        fn = lambda x, y, z: api.ite(z, x, api.apply(s1, x, y))
+    elif kind == 'op':
+        want = conn(T, 'and' if ins.get('neg') else 'or', tmp, c.tt)
+        if ins.get('neg'):
+            fn = lambda x, y, z: api.apply(s1, x, y) & z
+        else:
+            fn = lambda x, y, z: z | api.apply(s1, x, y)
+    elif kind == 'quant':
+        ks = mask_to_ks(ins['vars'], dec)
+        names = [w.names[k] for k in ks]
+        fa = bool(ins.get('forall'))
+        want = T.forall(tmp, ks) if fa else T.exists(tmp, ks)
+        owner = 'C03'
+        if ins.get('neg'):
+            fn = lambda x, y, z: api.quantify(api.apply(s1, x, y), names, fa)
+        else:
+            fn = lambda x, y, z: (api.forall if fa else api.exist)(names, api.apply(s1, x, y))
+    elif kind == 'let':
+        prs = [(k % w.nv, bool(v)) for k, v in ins['pairs'] if (k % w.nv) in dec]
+        if not prs:
+            return 'skip'
+        dd_ = {w.names[k]: v for k, v in prs}
+        want = tmp
+        for k, v in dict(prs).items():
+            want = T.cof(want, k, 1 if v else 0)
+        owner = 'C04'
+        fn = lambda x, y, z: api.let(dd_, api.apply(s1, x, y))
+    elif kind == 'let_fn':
+        ks = [k for k in dec]
+        if not ks:
+            return 'skip'
+        k = ks[ins.get('vars', 0) % len(ks)]
+        want = T.compose(c.tt, {k: tmp})
+        owner = 'C04'
+        nm = w.names[k]
+        fn = lambda x, y, z: api.let({nm: api.apply(s1, x, y)}, z)
+    else:
+        return 'skip'
+    before = (a.tt, b.tt, c.tt)
+    ok, v = call(w, fn, a.ref, b.ref, c.ref)
+    del fn
+    w.stats['nest'] += 1
+    w.stats['nest:' + kind] += 1
+    take_result(w, m, ok, v, want, owner, ins.get('keep', True), f'nested {kind}({s1!r} inner)')
+    del v
+    if (w.den(m, a.ref), w.den(m, b.ref), w.den(m, c.ref)) != before:
+        w.fail('I-den', 'an operand of a nested expression changed', owner_tags(w, owner))
 
 
 def op_probe(w, ins):
@@ -764,6 +856,19 @@ def op_drop(w, ins):
         del ref          # CPython finalizes the handle here
         w.touch()
         w.stats['drop_now'] += 1
+    elif mode in ('explicit', 'explicit_late'):
+        # the handle is given back early through its `__del__()` (which the
+        # code makes idempotent on purpose); the object itself goes away
+        # later and must not release anything a second time
+        ok, v = call(w, ref.__del__)
+        expect_ok(w, ok, v, 'C08', 'Function.__del__() called directly')
+        w.stats['drop_explicit'] += 1
+        if mode == 'explicit_late':
+            cell = [ref]
+            cell.append(cell)      # an empty husk: not in the ledger
+            del cell
+        del ref
+        w.touch()
     else:
         w.park(ref, g.idx)
         del ref
@@ -1075,6 +1180,7 @@ OPS = {
     'fop': (op_fop, 'C01'),
     'eqcheck': (op_eqcheck, 'C02'),
     'probe': (op_probe, 'C01'),
+    'nest': (op_nest, 'C01'),
     'quant': (op_quant, 'C03'),
     'let': (op_let, 'C04'),
     'cube': (op_cube, 'C01'),
